@@ -8,11 +8,12 @@ import (
 	"io"
 	"net"
 	"os"
+	"strconv"
+	"strings"
 	"sync"
 	"time"
 
 	"github.com/valyala/bytebufferpool"
-	"github.com/valyala/fasthttp"
 	"verif.local/sim/simrt"
 )
 
@@ -78,6 +79,18 @@ func ChooseTransport(s *simrt.Sim, permille int) NetOptions {
 	}
 	SetTransport(o)
 	resetNetConns()
+	return o
+}
+
+// ChooseTransportNoPause is ChooseTransport for engines whose reference model is exact in time:
+// the request bytes still arrive in segments, but no simulated time passes between them.
+func ChooseTransportNoPause(s *simrt.Sim, permille int) NetOptions {
+	o := ChooseTransport(s, permille)
+	if o.Enabled {
+		o.Pause = 0
+		SetTransport(o)
+		s.Count("probe_real_connection_loop")
+	}
 	return o
 }
 
@@ -400,9 +413,8 @@ func (c *Conn) netDo(raw []byte) *Resp {
 	if s := simrt.Current(); s != nil && len(segs) > 1 {
 		s.Count("fault_request_segmented")
 	}
-	var fr fasthttp.Response
-	fr.SkipBody = bytes.HasPrefix(raw, []byte("HEAD "))
-	err := fr.Read(ns.br)
+	head := bytes.HasPrefix(raw, []byte("HEAD "))
+	status, hdr, body, closeAfter, err := readResponseLenient(ns.br, head)
 	if ns.panicked != nil {
 		p := ns.panicked
 		c.ns = nil
@@ -419,14 +431,109 @@ func (c *Conn) netDo(raw []byte) *Resp {
 		c.ns = nil
 		return res
 	}
-	res.Status = fr.StatusCode()
-	res.Header = map[string][]string{}
-	fr.Header.VisitAll(func(k, v []byte) {
-		res.Header[string(k)] = append(res.Header[string(k)], string(v))
-	})
-	res.Body = append([]byte(nil), fr.Body()...)
-	if fr.ConnectionClose() {
+	res.Status = status
+	res.Header = hdr
+	res.Body = body
+	if closeAfter {
 		c.ns = nil
 	}
 	return res
+}
+
+// readResponseLenient reads one HTTP/1.x response the way a tolerant peer does: the header
+// block is split at line ends and at the first colon of each line, nothing is validated
+// (what a strict client makes of the bytes is the engines' business: Resp.ParseStrict).
+// Interim 1xx responses are skipped.
+func readResponseLenient(br *bufio.Reader, head bool) (status int, hdr map[string][]string, body []byte, closeAfter bool, err error) {
+	for {
+		var lines []string
+		for {
+			l, e := br.ReadString('\n')
+			if e != nil {
+				if len(lines) == 0 && l == "" {
+					return 0, nil, nil, true, e
+				}
+				return 0, nil, nil, true, io.ErrUnexpectedEOF
+			}
+			l = strings.TrimRight(l, "\r\n")
+			if l == "" {
+				if len(lines) == 0 {
+					continue // stray empty line before the status line
+				}
+				break
+			}
+			lines = append(lines, l)
+			if len(lines) > 2000 {
+				return 0, nil, nil, true, fmt.Errorf("header block too long")
+			}
+		}
+		f := strings.Fields(lines[0])
+		if len(f) < 2 || !strings.HasPrefix(f[0], "HTTP/") {
+			return 0, nil, nil, true, fmt.Errorf("not a status line: %q", lines[0])
+		}
+		status, _ = strconv.Atoi(f[1])
+		hdr = map[string][]string{}
+		for _, l := range lines[1:] {
+			k, v, ok := strings.Cut(l, ":")
+			if !ok {
+				continue
+			}
+			hdr[k] = append(hdr[k], strings.TrimSpace(v))
+		}
+		if status >= 100 && status < 200 {
+			continue
+		}
+		break
+	}
+	get := func(name string) string {
+		for k, v := range hdr {
+			if strings.EqualFold(k, name) && len(v) > 0 {
+				return v[len(v)-1]
+			}
+		}
+		return ""
+	}
+	closeAfter = strings.EqualFold(get("Connection"), "close")
+	switch {
+	case head || status == 204 || status == 304:
+	case strings.Contains(strings.ToLower(get("Transfer-Encoding")), "chunked"):
+		for {
+			l, e := br.ReadString('\n')
+			if e != nil {
+				return status, hdr, body, true, io.ErrUnexpectedEOF
+			}
+			n, perr := strconv.ParseInt(strings.TrimSpace(strings.SplitN(l, ";", 2)[0]), 16, 64)
+			if perr != nil || n < 0 || n > 64<<20 {
+				return status, hdr, body, true, fmt.Errorf("bad chunk size %q", l)
+			}
+			if n == 0 {
+				for { // trailers
+					t, e := br.ReadString('\n')
+					if e != nil || strings.TrimRight(t, "\r\n") == "" {
+						break
+					}
+				}
+				break
+			}
+			chunk := make([]byte, n)
+			if _, e := io.ReadFull(br, chunk); e != nil {
+				return status, hdr, body, true, io.ErrUnexpectedEOF
+			}
+			body = append(body, chunk...)
+			_, _ = br.ReadString('\n')
+		}
+	case get("Content-Length") != "":
+		n, perr := strconv.ParseInt(get("Content-Length"), 10, 64)
+		if perr != nil || n < 0 || n > 64<<20 {
+			return status, hdr, body, true, fmt.Errorf("bad Content-Length %q", get("Content-Length"))
+		}
+		body = make([]byte, n)
+		if _, e := io.ReadFull(br, body); e != nil {
+			return status, hdr, body, true, io.ErrUnexpectedEOF
+		}
+	default:
+		body, _ = io.ReadAll(br)
+		closeAfter = true
+	}
+	return status, hdr, body, closeAfter, nil
 }
